@@ -229,7 +229,7 @@ func runCells(bin string, cells []g2Cell) *g2Result {
 	defer os.RemoveAll(dir)
 	obs := make([]g2Obs, len(cells))
 	var wg sync.WaitGroup
-	sem := make(chan struct{}, 10)
+	sem := make(chan struct{}, 16)
 	for i := range cells {
 		wg.Add(1)
 		go func(i int) {
